@@ -105,6 +105,22 @@ func init() {
 	add("C17", "C13", "C13.R2")
 	// copy into a fresh destination goes through the batch writer's choice of the base interval
 	add("C08", "C06", "C06.R6~^archiveUpdateMany")
+	// what the reference reader accepts as a layout must be accepted here (the pairwise rules, no stricter)
+	add("C06", "C07", "C07.R3")
+	// items are named relative to the base directory however it is spelled
+	add("C10", "C08", "C08.R7~globItemsLocal")
+	add("C11", "C08", "C08.R7~globItemsLocal")
+	// the points of a decoded series are indexed by its values, whatever window the bytes claim
+	add("C15", "C18", "C18.R3~^TimeSeries.Points")
+	// the count a decoder refuses is the count whose message no longer fits, not a smaller one
+	add("C14", "C15", "C15.R1~upper-bound")
+	// sum-copy writes where sum-diff reads; copy compares the source with the file it opened
+	add("C16", "C11", "C11.R4~^dest-path")
+	add("C16", "C08", "C08.R2~layout-sides")
+	// the consolidated value of a coarser slot is a write to that slot as well: skipped, the slot keeps a stale lap
+	add("C01", "C02", "C02.R6")
+	// the coarser levels are recomputed from what the batch writer hands on
+	add("C02", "C03", "C03.R5~propagates-what-it-wrote")
 	// the method a file names (by text or by number) is the method aggregate applies
 	add("C02", "C19", "C19.R4~^name-of:")
 	// the text output of sum shows stored values and slot times as they are
